@@ -341,6 +341,33 @@ def r11f(ctx, rep, cr):
     rep.notes.append('R11f: multi-shard methods = %s' % sorted(lib.short(x) for x in multi))
 
 
+def r11g(ctx, rep, cr):
+    rep.rule('R11g', 'the membership filter only forgets in a whole-store reset: no TensorStore operation the property observes (put, get, '
+                     'delete, exists, scan and their durable / batch forms) reaches BloomFilter::clear, itself or through a helper — only '
+                     'TensorStore::clear does. put() adds the key to the filter and then writes the router without a lock that spans both, so '
+                     'a reset made by a concurrent delete ("the store is empty now") can land between the two and wipe the bits of a key whose '
+                     'value is then stored: scan lists it, get and exists answer NotFound from the filter alone')
+    cg = A.CallGraph([cr])
+    TS = 'tensor_store::TensorStore::'
+    clears = [n for n, f in cr.fns.items() if any(re.search(r'BloomFilter::clear$', c.resolved) for c in A.calls(f))]
+    rep.floor('R11g', 'functions that reset the filter', len(clears), 1)
+    ops = sorted(n for n in cr.fns if n.startswith(TS) and '{closure' not in n and
+                 re.search(r'::(put|get|delete|exists|scan|scan_count|scan_filter_map|put_durable|delete_durable|batch_put\w*|batch_get\w*|batch_delete\w*)$', n))
+    rep.floor('R11g', 'observed store operations', len(ops), 5)
+    for n in ops:
+        f = cr.fns[n]
+        rep.analysed(f)
+        goal = lambda x: re.search(r'BloomFilter::clear$', x) is not None
+        p = [n] if any(goal(c.resolved) for c in A.calls(f)) else cg.path(n, goal)
+        if p:
+            rep.violation('R11g', f, 'filter-reset-in-operation', f.loc(),
+                          '%s reaches BloomFilter::clear (%s): a concurrent put that has added its key to the filter and not yet written the '
+                          'router loses its filter bits, and the stored key is then unreadable through get / exists' %
+                          (lib.short(n), ' → '.join(lib.short(x) for x in p)))
+        else:
+            rep.holds('R11g', f, 'no filter reset', '')
+
+
 def run(ctx, rep):
     cr = ctx.crate('tensor_store')
     r11a(ctx, rep, cr)
@@ -349,5 +376,6 @@ def run(ctx, rep):
     r11d(ctx, rep, cr)
     r11e(ctx, rep, cr)
     r11f(ctx, rep, cr)
+    r11g(ctx, rep, cr)
     if ctx.tier == 'thorough':
         witness.run(rep, 'R11a', ['MetadataShardsArePrivate'])
